@@ -784,7 +784,55 @@ def compare_trace(ctx, case, model, recs, pr, out):
     return True
 
 
+# ----------------------------------------------------------------------------------------------------------------------
+# regression witnesses: one targeted family per repaired defect (known_findings.json "fixed", property C08) — inputs
+# on which the OLD formula fails, run on every check so that a re-introduction is reported with a concrete input
+# ----------------------------------------------------------------------------------------------------------------------
+
+def regression_cases(r):
+    out = []
+    # KMeans: swapped (eps_0, eps_i) [d >= 5] and cluster-sum sensitivity u-l [bounds not containing 0]:
+    # two tight groups at opposite corners of (10, 11)^d, a record moves from one group to the other
+    for d in (5, 10):
+        for _ in range(3):
+            n = 20
+            X = [[10.0] * d if i % 2 == 0 else [11.0] * d for i in range(n)]
+            case = {"model": "kmeans", "seed": r.randint(0, 2 ** 31 - 2), "mode": "regression:kmeans",
+                    "params": {"epsilon": 20000.0, "lo": [10.0] * d, "hi": [11.0] * d, "scalar_bounds": True, "k": 2},
+                    "X": X}
+            reps = [{"index": i, "x": [11.0] * d if i % 2 == 0 else [10.0] * d, "y": None, "kind": "opposite"}
+                    for i in range(6)]
+            out.append((case, reps))
+    # GaussianNB: class-sum sensitivity u-l with bounds (10, 11): a label change moves a class sum by >= 10
+    for d in (1, 3):
+        n = 12
+        X = [[10.0 if (i + j) % 2 else 11.0 for j in range(d)] for i in range(n)]
+        y = [i % 2 for i in range(n)]
+        case = {"model": "gnb", "seed": r.randint(0, 2 ** 31 - 2), "mode": "regression:gnb",
+                "params": {"epsilon": 1.0, "lo": [10.0] * d, "hi": [11.0] * d, "scalar_bounds": True, "k": 2},
+                "X": X, "y": y}
+        reps = [{"index": i, "x": list(X[i]), "y": 1 - y[i], "kind": "label"} for i in range(4)]
+        out.append((case, reps))
+    # LinearRegression: (a) squared-feature sensitivity from both bounds, (b) one constant coefficient per target,
+    # (c) intercept share halved between the two means.  Bounds [0, 1]: the all-zero record replaced by the all-one
+    # record moves every monomial sum from its minimum to its maximum corner.
+    for d, t, fi in ((2, 1, False), (2, 3, False), (1, 1, True), (1, 2, True), (3, 4, False)):
+        n = 10
+        X = [[0.0] * d for _ in range(n)]
+        Y = [[0.0] * t for _ in range(n)]
+        case = {"model": "linreg", "seed": r.randint(0, 2 ** 31 - 2), "mode": "regression:linreg",
+                "params": {"epsilon": 1.0, "lo": [0.0] * d, "hi": [1.0] * d, "scalar_bounds": True, "t": t, "y1d": False,
+                           "fit_intercept": fi, "ylo": [0.0] * t, "yhi": [1.0] * t, "yscalar": True},
+                "X": X, "y": Y}
+        reps = [{"index": i, "x": [1.0] * d, "y": [1.0] * t, "kind": "opposite"} for i in range(2)]
+        out.append((case, reps))
+    return out
+
+
 def check(ctx):
+    for case, reps in regression_cases(ctx.fork("regression")):
+        check_case(ctx, case, reps)
+        ctx.count("regression_families")
     r = ctx.fork("cases")
     per_model = ctx.budget(60, 500)
     n_reps = 6 if ctx.tier == "quick" else 8
